@@ -23,6 +23,7 @@ package tally
 import (
 	"bytes"
 	"sync"
+	"unicode/utf8"
 )
 
 var (
@@ -144,15 +145,23 @@ func (c *ValidCharacters) sanitizeFn(repChar rune) SanitizeFn {
 	return func(value string) string {
 		var buf *bytes.Buffer
 		for idx, ch := range value {
+			// an invalid byte decodes to utf8.RuneError; it is never valid, even
+			// if U+FFFD itself is an allowed character
+			invalidByte := false
+			if ch == utf8.RuneError {
+				_, width := utf8.DecodeRuneInString(value[idx:])
+				invalidByte = width <= 1
+			}
+
 			// first check if the provided character is valid
 			validCurr := false
-			for i := 0; !validCurr && i < len(c.Ranges); i++ {
+			for i := 0; !invalidByte && !validCurr && i < len(c.Ranges); i++ {
 				if ch >= c.Ranges[i][0] && ch <= c.Ranges[i][1] {
 					validCurr = true
 					break
 				}
 			}
-			for i := 0; !validCurr && i < len(c.Characters); i++ {
+			for i := 0; !invalidByte && !validCurr && i < len(c.Characters); i++ {
 				if c.Characters[i] == ch {
 					validCurr = true
 					break
